@@ -21,6 +21,12 @@ pub enum SOp {
     /// once a.call_once(|| { b.call_once(|| mark) }); result: (outer ran, inner ran)
     OnceNested(usize, usize),
     OnceIsCompleted(usize),
+    /// catch_unwind(once.call_once(|| panic!())): Ran(did my closure run) / Poisoned
+    OncePanic(usize),
+    /// once.call_once_force(|st| ..): Ran2(did my closure run, st.is_poisoned())
+    OnceForce(usize),
+    /// catch_unwind(once.call_once(|| mark)): Ran(..) / Poisoned (a poisoned Once makes call_once panic)
+    OnceCallP(usize),
     Park,
     /// unpark thread index
     Unpark(usize),
@@ -34,6 +40,7 @@ pub enum SRes {
     Leader(bool),
     Ran(bool),
     Ran2(bool, bool),
+    Poisoned,
     Bool(bool),
 }
 
@@ -82,6 +89,8 @@ pub struct SM {
     o: Vec<OnceSt>,
     /// holder of each Once's internal lock
     olock: Vec<Option<usize>>,
+    /// an initialiser of this Once panicked (the internal lock is poisoned for good)
+    opoison: Vec<bool>,
     /// per thread: (token, parked, woken)
     park: Vec<(bool, bool, bool)>,
     /// scratch per thread for multi-phase ops (inner result of OnceNested)
@@ -218,6 +227,38 @@ impl Family for SyncFam {
                     SRes::Ran2(ran, ran2)
                 }
                 SOp::OnceIsCompleted(i) => SRes::Bool(o.o[*i].is_completed()),
+                SOp::OncePanic(i) | SOp::OnceCallP(i) => {
+                    let boom = matches!(op, SOp::OncePanic(_));
+                    let mut ran = false;
+                    let r = std::panic::catch_unwind(std::panic::AssertUnwindSafe(|| {
+                        o.o[*i].call_once(|| {
+                            ran = true;
+                            if boom {
+                                std::panic::resume_unwind(Box::new("vx: initialiser panics"));
+                            }
+                        })
+                    }));
+                    match r {
+                        Ok(()) => SRes::Ran(ran),
+                        Err(_) if ran => SRes::Ran(true),
+                        Err(p) => {
+                            if payload_to_string(&p).contains("previously been poisoned") {
+                                SRes::Poisoned
+                            } else {
+                                std::panic::resume_unwind(p)
+                            }
+                        }
+                    }
+                }
+                SOp::OnceForce(i) => {
+                    let mut ran = false;
+                    let mut saw = false;
+                    o.o[*i].call_once_force(|st| {
+                        ran = true;
+                        saw = st.is_poisoned();
+                    });
+                    SRes::Ran2(ran, saw)
+                }
                 SOp::Park => {
                     if alt_api() {
                         shuttle::thread::park_timeout(std::time::Duration::from_millis(1));
@@ -239,6 +280,15 @@ impl Family for SyncFam {
         }
     }
 
+    /// F12 seen through Once: its internal lock is a Shuttle Mutex, and a poisoned Mutex no longer
+    /// makes a second locker wait
+    fn weakening(cfg: &SCfg) -> Option<&'static str> {
+        if cfg.onces > 0 {
+            Some("poisoned-once-lock-does-not-exclude")
+        } else {
+            None
+        }
+    }
     fn yields(op: &SOp) -> Option<bool> {
         match op {
             SOp::Yield => Some(true),
@@ -295,7 +345,7 @@ impl Family for SyncFam {
             SOp::Wait(c, m) | SOp::WaitWhile0(c, m) => vec![0x500 + *c as u32, 0x100 + *m as u32],
             SOp::NotifyOne(c) | SOp::NotifyAll(c) => vec![0x500 + *c as u32],
             SOp::BarrierWait(b) => vec![0x600 + *b as u32],
-            SOp::OnceCall(o) | SOp::OnceIsCompleted(o) => vec![0x700 + *o as u32],
+            SOp::OnceCall(o) | SOp::OnceIsCompleted(o) | SOp::OncePanic(o) | SOp::OnceForce(o) | SOp::OnceCallP(o) => vec![0x700 + *o as u32],
             SOp::OnceNested(a, b) => vec![0x700 + *a as u32, 0x700 + *b as u32],
             // park tokens: anybody's unpark can reach anybody's park
             SOp::Park | SOp::Unpark(_) => vec![0x800],
@@ -387,6 +437,7 @@ impl Family for SyncFam {
                 .collect(),
             o: vec![OnceSt::New; cfg.onces],
             olock: vec![None; cfg.onces],
+            opoison: vec![false; cfg.onces],
             park: vec![(false, false, false); n],
             tmp: vec![0; n],
         }
@@ -590,6 +641,65 @@ impl SyncFam {
             SOp::OnceIsCompleted(i) => {
                 let d = n.o[*i] == OnceSt::Done;
                 vec![MStep::Done(n, SRes::Bool(d))]
+            }
+            // call_once / call_once_force with poisoning.  Phases: 0 check, 1 take the internal lock,
+            // 2 decide (and, for the winner, run the closure), 4 give the lock back and return.
+            SOp::OncePanic(i) | SOp::OnceForce(i) | SOp::OnceCallP(i) => {
+                let i = *i;
+                let force = matches!(op, SOp::OnceForce(_));
+                let boom = matches!(op, SOp::OncePanic(_));
+                let not_ran = if force { SRes::Ran2(false, false) } else { SRes::Ran(false) };
+                match phase {
+                    0 => {
+                        if n.o[i] == OnceSt::Done {
+                            vec![MStep::Done(n, not_ran)]
+                        } else {
+                            vec![MStep::Cont(n, 1)]
+                        }
+                    }
+                    1 => {
+                        if n.olock[i].is_none() {
+                            n.olock[i] = Some(t);
+                            vec![MStep::Cont(n, 2)]
+                        } else if weak() && n.opoison[i] {
+                            // recorded finding (F12 through Once): the poisoned internal lock no
+                            // longer makes a second caller wait
+                            vec![MStep::Panic("state.holder.is_none()".into())]
+                        } else {
+                            vec![]
+                        }
+                    }
+                    2 => {
+                        if n.o[i] == OnceSt::Done {
+                            n.tmp[t] = 0; // result: did not run
+                            vec![MStep::Cont(n, 4)]
+                        } else if n.opoison[i] && !force {
+                            n.tmp[t] = 2; // result: Poisoned
+                            vec![MStep::Cont(n, 4)]
+                        } else if boom {
+                            n.opoison[i] = true;
+                            n.tmp[t] = 1; // my closure ran (and panicked)
+                            vec![MStep::Cont(n, 4)]
+                        } else {
+                            n.tmp[t] = if n.opoison[i] { 3 } else { 1 }; // ran (3: saw the poison)
+                            n.o[i] = OnceSt::Done;
+                            vec![MStep::Cont(n, 4)]
+                        }
+                    }
+                    _ => {
+                        n.olock[i] = None;
+                        let code = n.tmp[t];
+                        n.tmp[t] = 0;
+                        let r = match (code, force) {
+                            (2, _) => SRes::Poisoned,
+                            (0, true) => SRes::Ran2(false, false),
+                            (0, false) => SRes::Ran(false),
+                            (c, true) => SRes::Ran2(true, c == 3),
+                            (_, false) => SRes::Ran(true),
+                        };
+                        vec![MStep::Done(n, r)]
+                    }
+                }
             }
             SOp::Park => match phase {
                 0 => {
@@ -837,7 +947,46 @@ fn gated_programs() -> Vec<Program<SyncFam>> {
     out
 }
 
+/// A Once whose first initialiser panicked (in main, before anybody else exists), then callers of
+/// call_once / call_once_force / is_completed racing on it.
+fn once_poison_programs() -> Vec<Program<SyncFam>> {
+    let cfg = SCfg {
+        mutexes: 0,
+        condvars: 0,
+        barriers: vec![],
+        onces: 1,
+    };
+    let g = |ops: &[SOp]| -> Vec<GOp<SOp>> { ops.iter().cloned().map(GOp::Op).collect() };
+    // children never panic (a caught panic unwinding in one green thread while others run confuses
+    // `std::thread::panicking()`, Appendix B): `call_once` on a poisoned Once is left to main
+    let bodies: Vec<Vec<SOp>> = vec![
+        vec![SOp::OnceForce(0)],
+        vec![SOp::OnceIsCompleted(0), SOp::OnceForce(0)],
+        vec![SOp::OnceForce(0), SOp::OnceIsCompleted(0)],
+        vec![SOp::OnceIsCompleted(0)],
+    ];
+    let mut out = Vec::new();
+    for pre in [vec![SOp::OncePanic(0)], vec![SOp::OncePanic(0), SOp::OnceCallP(0)], vec![]] {
+        for idx in nondecreasing_tuples(bodies.len(), 2) {
+            let mut main = g(&pre);
+            main.extend([GOp::Spawn(1), GOp::Spawn(2), GOp::Join(1), GOp::Join(2), GOp::Op(SOp::OnceCallP(0)), GOp::Op(SOp::OnceIsCompleted(0))]);
+            out.push(Program {
+                cfg: cfg.clone(),
+                threads: vec![main, g(&bodies[idx[0]]), g(&bodies[idx[1]])],
+            });
+        }
+        // sequential use by main alone
+        let mut main = g(&pre);
+        main.extend(g(&[SOp::OnceCallP(0), SOp::OnceForce(0), SOp::OnceCallP(0), SOp::OnceIsCompleted(0)]));
+        out.push(Program { cfg: cfg.clone(), threads: vec![main] });
+    }
+    out
+}
+
 pub fn program_set(set: &str) -> Vec<Program<SyncFam>> {
+    if set == "once-poison" {
+        return once_poison_programs();
+    }
     if set == "gated" {
         return gated_programs();
     }
